@@ -102,6 +102,7 @@ func c20Pipeline(c *Ctx, f *ssa.Function, innerName string, rule string) {
 func runC20(c *Ctx) {
 	c.rule("value-pipeline", "transforming source Value and transforming decoder Decode: translate, call the inner with the translated type, reverse-translate its value with the same transformer, return that; each of the three errors is tested and returned (wrapped) with a zero value", 6)
 	c.rule("watch-reverse-translates", "the concrete watch arguments handed to a wrapped watcher declare (selection depth 1, not promoted from the embedded original) every WatchArgs method that carries a reflect.Value; each reverse-translates the value with the transformer whose TranslateType produced the inner type, returns the error if that fails, and forwards to the same-named method of the wrapped arguments", 3)
+	c.rule("reverse-derefs", "Transformer.ReverseTranslate never unpacks a value of pointer kind: a pointer to the translated struct (what Blank and pointer-returning sources hand back, and what dials dereferences natively) is dereferenced first", 1)
 	c.rule("no-self-call", "no wrapper method calls itself", 1)
 	c.rule("blank-delegation", "Blank.Value delegates exactly when an inner source is set, else returns a fresh zero of the requested type; SetSource refuses to replace a watching inner source before writing any field; Done forwards exactly when the inner source is not a Watcher and watch arguments are present; the inner Watch gets the saved Dials watch context, type and arguments", 5)
 	c.rule("setsource-order", "(shared with C07) Blank.SetSource assigns the inner source only after s.Value succeeded (a failed SetSource must not install the source), reports exactly that value with its own context, returns nil only after the report did, and starts the inner Watch afterwards", 4)
@@ -120,6 +121,7 @@ func runC20(c *Ctx) {
 	c.analysed(relName(watch))
 	c20Pipeline(c, val, "("+modPath+".Source).Value", "value-pipeline")
 	c20Pipeline(c, dec, "("+modPath+".Decoder).Decode", "value-pipeline")
+	c20ReverseDerefs(c, "reverse-derefs")
 
 	// ---- watch-reverse-translates -----------------------------------------------
 	waIface := w.named("", "WatchArgs")
@@ -506,5 +508,74 @@ func c20Blank(c *Ctx) {
 			}
 			c.check(okl, "blank-locking", relName(f)+"#"+fn, fa.Pos(), "access to Blank."+fn+" under b.mu", "Blank."+fn+" accessed without holding b.mu")
 		}
+	}
+}
+
+// c20ReverseDerefs: dials dereferences a pointer-valued source value when it stacks it (and sourcewrap.Blank
+// hands back such a value), so a wrapped source is transparent only if Transformer.ReverseTranslate unpacks the
+// pointee: the value handed to unpackValueFields must not be a reflect.Value of pointer kind (D28).
+func c20ReverseDerefs(c *Ctx, rule string) {
+	w := c.W
+	rt := w.fn("transform", "Transformer.ReverseTranslate")
+	unpack := w.fn("transform", "unpackValueFields")
+	if !c.need(rt != nil && unpack != nil, "transform.Transformer.ReverseTranslate / unpackValueFields") {
+		return
+	}
+	c.analysed(relName(rt))
+	n := 0
+	for _, ci := range callsToFn(rt, unpack) {
+		call := ci.(*ssa.Call)
+		n++
+		var why string
+		seen := map[ssa.Value]bool{}
+		var okVal func(v ssa.Value, p, b *ssa.BasicBlock) bool
+		okVal = func(v ssa.Value, p, b *ssa.BasicBlock) bool {
+			if cc, ok := v.(*ssa.Call); ok {
+				switch calleeFullName(cc) {
+				case "(reflect.Value).Elem", "reflect.Zero", "reflect.Indirect":
+					return true
+				}
+			}
+			// guarded by Kind(v) != Ptr on the way in
+			pb := &predBuilder{name: func(x ssa.Value) string {
+				if kc, ok := x.(*ssa.Call); ok && calleeFullName(kc) == "(reflect.Value).Kind" && kc.Call.Args[0] == v {
+					return "kind"
+				}
+				return ""
+			}}
+			var g formula
+			if p != nil {
+				g = pb.pathCondEdge(rt.Blocks[0], p, b)
+			} else {
+				g = pb.pathCond(rt.Blocks[0], b)
+			}
+			fb, fi := map[string]bool{}, map[string]bool{}
+			atomsOf(g, fb, fi)
+			if fi["kind"] {
+				if _, counter := forAll(g, map[string][]int64{"kind": allKinds}, func(e env, fv bool) bool { return !fv || e.I["kind"] != kPtr }); counter == "" {
+					return true
+				}
+			}
+			ph, isPhi := v.(*ssa.Phi)
+			if !isPhi || seen[v] {
+				if !isPhi {
+					why = canon(v) + " reaches unpackValueFields without a Kind() != Ptr guard or a dereference"
+				}
+				return isPhi
+			}
+			seen[v] = true
+			for ei, e := range ph.Edges {
+				if !okVal(e, ph.Block().Preds[ei], ph.Block()) {
+					return false
+				}
+			}
+			return true
+		}
+		good := okVal(call.Call.Args[0], nil, call.Block())
+		c.check(good, rule, relName(rt)+"#unpack#"+itoa(n), call.Pos(), "the value unpacked field by field is never of pointer kind (pointer values are dereferenced first, as dials does when stacking)",
+			"a pointer-kind value can reach unpackValueFields ("+why+"): a wrapped source that returns a pointer to the translated struct - sourcewrap.Blank does - panics in Config or has its value dropped, although the same source works natively")
+	}
+	if n == 0 {
+		c.bad(rule, relName(rt), rt.Pos(), "ReverseTranslate no longer unpacks its value through unpackValueFields")
 	}
 }
